@@ -20,8 +20,8 @@ T = {
             "All 1-2 (quick) / 3 (thorough) record converters over a joint alphabet with nested URI prefixes and the empty prefix; for every recognised URI and CURIE the losslessness laws and, on prefix-free configurations, the inverse-bijection laws are evaluated on the real code.", "6/C03"),
     "C04": ("exhaustive enumeration of record sequences (with repetition, all orders) through the constructor and every loader; clash-set oracle",
             "Every sequence of 1..3 records over a 3x3 string alphabet with <=1 synonym per side is constructed; success/failure, exception class and the reported duplicates are compared with a nested-loop clash oracle; the same collections are pushed through every loader that can express them.", "6/C04"),
-    "C05": ("explicit-state BFS over add_record/add_prefix histories on the real Converter with state deduplication; lock-step reference model + differential oracle against a freshly built converter",
-            "Breadth-first exploration of every history up to depth 3 (quick) / 4 (thorough) of add_record/add_prefix operations (all flag combinations, overlapping/bridging/case-variant records) from 4 initial converters; every transition is executed on fresh real objects with the whole query battery observed after every step.", "6/C05"),
+    "C05": ("explicit-state BFS over add_record/add_prefix histories on the real Converter with state deduplication; lock-step reference model + differential oracle against a freshly built converter; second model in TLA+ explored by TLC with every edge of its state graph replayed against the implementation",
+            "Breadth-first exploration of every history up to depth 3 (quick) / 4 (thorough) of add_record/add_prefix operations (all flag combinations, overlapping/bridging/case-variant records) from 5 initial converters; every transition is executed on fresh real objects with the query battery observed after every step. Independently, TLC explores models/AddRecord.tla over the same alphabet (depth 2/3); all edges of the dumped state graph are replayed on the real Converter and TLC's reachable converters must equal those reached through the implementation.", "6/C05, 12.2"),
     "C06": ("exhaustive enumeration of configurations x prefixes/CURIEs/URIs; reference model + idempotence/meaning-preservation laws on every case",
             "Same joint universe as C03 plus incrementally reached states; standardize_prefix/_curie/_uri are compared with the reference and the idempotence and meaning-preservation laws are evaluated on every string.", "6/C06"),
     "C07": ("exhaustive enumeration of configurations with strings that are both CURIE and URI x all short strings; agreement of derived operations with the primitive parsers",
@@ -31,7 +31,7 @@ T = {
     "C09": ("exhaustive enumeration of ordered pairs/triples of small converters x case modes, and of prefix subsets; lock-step reference fold",
             "All ordered pairs of valid <=2-record converters (both case modes), triples of 1-record converters, and every prefix subset for get_subconverter are executed and compared with the reference priority-union / restriction.", "6/C09"),
     "C10": ("explicit-state exploration of derivation + follow-up mutation histories with a frame invariant on every input converter after every step",
-            "Worlds of input converters; every derivation (chain, get_subconverter, remap_*, rewire, discover) with small argument alphabets followed by 0..2 mutations of the derived converter and second-level derivations; full snapshot of every input compared before/after each step.", "6/C10"),
+            "Worlds of input converters (built by constructor and incrementally); every derivation (chain incl. singleton chains, get_subconverter, remap_*, rewire, discover) with small argument alphabets followed by 0..2 mutations of the derived converter, second-level derivations and the same derivation repeated; full ordered snapshot of every non-target converter compared before/after each step.", "6/C10"),
     "C11": ("exhaustive enumeration of remapping dictionaries (all key orders) over known/synonym/unknown names x base converters; postcondition oracle",
             "Every dictionary of <=3 (quick) / <=4 (thorough) pairs over 7 names in every key order is applied to 3 base converters; rejection conditions and the no-loss postconditions are evaluated on every result.", "6/C11"),
     "C12": ("exhaustive enumeration of injective URI remappings / rewirings (all key orders) x base converters; postcondition oracle",
@@ -43,7 +43,7 @@ T = {
     "C15": ("exhaustive enumeration of reference objects (4 classes) with all pairs and triples; algebraic laws + file round trips",
             "All references over a prefix x identifier x name x class alphabet; parse/print/JSON round trips, equality/hash/order laws on all pairs and triples, converter-context validation, write_triples/read_triples on real files.", "6/C15"),
     "C16": ("exhaustive enumeration of small tables x columns x flags x operations, with every position of the first failing row (fault enumeration); scalar-call oracle and byte-for-byte atomicity",
-            "All tables of 0..3 rows over a cell alphabet, every flag combination and operation; expected column computed by scalar calls; when a scalar call raises (or a row is malformed) at any position, the file bytes must be unchanged.", "6/C16"),
+            "All tables of 0..2/3 rows over a cell alphabet (incl. cells needing CSV quoting, CR, BOM), short and blank rows at every position, three header kinds, every flag combination and operation, data frames with non-default labels and indexes, and bulk-merge-bulk histories; expected column computed by scalar calls; when a scalar call raises (or a row is malformed) at any position, the file bytes must be unchanged.", "6/C16"),
     "C17": ("exhaustive enumeration of request paths x converters x delimiters x both frameworks (in-process test clients)",
             "Every path prefix+delimiter+identifier with 1..3 segments over a segment alphabet against Flask and FastAPI apps; status/Location compared with Converter.expand and across frameworks.", "6/C17"),
     "C18": ("exhaustive enumeration of SPARQL query shapes x URIs x transports, and of Accept headers up to 3 elements with optional whitespace; reference negotiation per RFC 7231",
